@@ -2,7 +2,10 @@
 
 package kvql
 
-import "bytes"
+import (
+	"bytes"
+	"strconv"
+)
 
 // C09 — GROUP BY partitions by value tuples and aggregates equal their definitions.
 
@@ -296,4 +299,73 @@ func VH_C09_MIX(n, B, fn int) {
 		vAssert(got == want, "C09/MIX-"+name+"-over-int-and-float-values-differs-from-definition")
 	}
 	vCover("mixed")
+}
+
+// VH_C09_FLOAT: grouping by a float-valued field partitions by the float value: close values
+// stay apart, different spellings of one value fall together. Also: a GROUP BY list as long as
+// the select list, with an aggregate among the select fields, is an aggregate statement.
+var vC09FloatPool = []struct {
+	text string
+	val  float64
+}{{"0.1234561", 0.1234561}, {"0.1234562", 0.1234562}, {"0.5", 0.5}, {"0.50", 0.5}, {"1000000.25", 1000000.25}, {"1000000.26", 1000000.26}}
+
+func VH_C09_FLOAT(n, B, form int) {
+	keys := make([][]byte, n)
+	vals := make([][]byte, n)
+	pick := make([]int, n)
+	for i := 0; i < n; i++ {
+		keys[i] = []byte{byte('a' + i)}
+		pick[i] = vChoose("p"+vItoa(i), len(vC09FloatPool))
+		vals[i] = []byte(vC09FloatPool[pick[i]].text)
+	}
+	st := vNewStoreFrom(keys, vals)
+	PlanBatchSize = B
+	q := "select float(value) as f, count(1) where key >= '' group by f"
+	if form == 1 {
+		q = "select float(value) as f, count(1) where key >= '' group by f, key"
+	}
+	// reference: groups in order of first appearance
+	var gv []float64
+	var gc []int64
+	for i := 0; i < n; i++ {
+		x := vC09FloatPool[pick[i]].val
+		found := false
+		if form == 0 {
+			for j := range gv {
+				if gv[j] == x {
+					gc[j]++
+					found = true
+					break
+				}
+			}
+		}
+		if !found {
+			gv = append(gv, x)
+			gc = append(gc, 1)
+		}
+	}
+	for mode := 0; mode < 2; mode++ {
+		p, err := NewOptimizer(q).BuildPlan(st.clone())
+		vAssert(err == nil, "C09/FLOAT-statement-rejected")
+		var r vRows
+		if mode == 0 {
+			r = vDrainNext(p, n+1)
+		} else {
+			r = vDrainBatch(p, n+1)
+		}
+		vAssert(r.err == nil, "C09/FLOAT-error")
+		vAssert(len(r.rows) == len(gv), "C09/FLOAT-number-of-groups")
+		for j, row := range r.rows {
+			// the grouping column comes back as the float or as its decimal text
+			f, ok := row[0].(float64)
+			if !ok {
+				if tb, isText := vColBytes(row[0]); isText {
+					pf, err := strconv.ParseFloat(string(tb), 64)
+					f, ok = pf, err == nil
+				}
+			}
+			vAssert(ok && f == gv[j] && vIsInt64(row[1], gc[j]), "C09/FLOAT-group-differs-from-definition")
+		}
+	}
+	vCover("grouped")
 }
